@@ -291,6 +291,40 @@ pub fn check_archive(spec: &Spec, bytes: &[u8], lay: &Layout, st: &mut Stats, or
             }
             Err(p) => bad(&format!("panic/by_name/{}", panic_site(&p)), p, st),
         }
+        // near misses of recorded names: each name with a separator added or taken away at either end, with its case changed,
+        // with a space appended, cut by one character - whenever that string is not itself a recorded name, it is absent
+        {
+            let mut probes: std::collections::BTreeSet<String> = Default::default();
+            let mut sorted_names: Vec<&String> = last_of.keys().collect();
+            sorted_names.sort();
+            for (k, name) in sorted_names.into_iter().enumerate() {
+                if k >= 40 {
+                    break;
+                }
+                let mut v = vec![format!("{name}/"), format!("/{name}"), format!("{name} "), format!("./{name}"), name.to_uppercase(), name.to_lowercase(), name.replace('/', "\\"), name.replace('\\', "/")];
+                if let Some(t) = name.strip_suffix('/') {
+                    v.push(t.to_string());
+                }
+                if let Some(t) = name.strip_prefix('/') {
+                    v.push(t.to_string());
+                }
+                let mut cs = name.chars();
+                if cs.next_back().is_some() {
+                    v.push(cs.as_str().to_string());
+                }
+                probes.extend(v.into_iter().filter(|q| !last_of.contains_key(q)));
+            }
+            for q in probes {
+                match guard(|| ar.by_name(&q).map(|f| f.name().to_string())) {
+                    Ok(Err(zip::result::ZipError::FileNotFound)) => {}
+                    Ok(r) => {
+                        all_ok = false;
+                        bad("by_name/absent/near-miss", format!("lookup of the absent name {q:?} gave {:?}", r.map_err(|e| e.to_string())), st)
+                    }
+                    Err(p) => bad(&format!("panic/by_name/{}", panic_site(&p)), p, st),
+                }
+            }
+        }
         let n = ar.len();
         for idx in [n, n + 1, usize::MAX] {
             for raw in [false, true] {
